@@ -11,6 +11,10 @@ if "--round2" in args:
     args.remove("--round2")
     root = "/tmp/seed2"
     rename = {"A": "C", "B": "D"}
+if "--round4" in args:
+    args.remove("--round4")
+    root = "/tmp/seed4"
+    rename = {"A": "G", "B": "H"}
 if "--round3" in args:
     args.remove("--round3")
     root = "/tmp/seed3"
